@@ -115,6 +115,11 @@ mod msgq {
             self.len_bytes += msg.len_bytes();
             self.queue.push_back(msg);
         }
+
+        pub(crate) fn push_front(&mut self, msg: UserRxMessage) {
+            self.len_bytes += msg.len_bytes();
+            self.queue.push_front(msg);
+        }
     }
 }
 
@@ -183,6 +188,12 @@ impl UtpStreamReadHalf {
                         self.current = Some(BeingRead { payload, offset: 0 })
                     }
                     UserRxMessage::Error(msg) => {
+                        if written > 0 {
+                            // Bytes were already copied into the caller's buffer by this call:
+                            // report them first, the error is returned by the next read.
+                            g.queue.push_front(UserRxMessage::Error(msg));
+                            break;
+                        }
                         return Poll::Ready(Err(std::io::Error::other(msg)));
                     }
                 }
